@@ -87,7 +87,7 @@ OnIter(s, r) ==
             !.nRows = s.nRows + r.nrows,
             !.nRange = s.nRange + (IF "R" \in fl THEN r.nrows ELSE 0),
             !.pendLo = Range(r.violLo), !.pendHi = Range(r.violHi),
-            !.allFwd = s.allFwd /\ r.fwd, !.allAdvLe = s.allAdvLe /\ r.advLeStep,
+            !.allFwd = s.allFwd /\ r.fwd, !.allAdvLe = s.allAdvLe /\ (r.advLeStep \/ ~r.airOK),
             !.nIter = s.nIter + r.rep]
 
 RaiseClauses(s, r) ==
@@ -101,7 +101,10 @@ RaiseClauses(s, r) ==
 
 EndClauses(s, r) ==
   LET done == r.outcome = "Done"
-      c03  == done /\ s.req.rec /\ s.allFwd /\ s.allAdvLe     \* precondition of the end-of-run clauses of C03
+      \* precondition of the end-of-run clauses of C03.  A ground advance beyond the record step excuses the run only when the
+      \* WIND made it (the air-relative advance kept to the configured maximum step): the statement's premise is about the
+      \* configured step, so a step the solver itself made too long excuses nothing
+      c03  == done /\ s.req.rec /\ s.allFwd /\ s.allAdvLe
   IN If(s.phase \notin {"running", "raised"}, "Trace.Protocol") \cup
      If(done /\ s.phase = "raised", "Trace.Protocol") \cup
      If(~done /\ s.phase # "raised", "Trace.Protocol") \cup
